@@ -16,7 +16,7 @@ RULE = ("vector cases: chao1, var_chao1, chao2, var_chao2 on every frequency-of-
 ASSUMPTIONS = ["elements of the two collections are of one type (str or int)", "ratio forms are given collections that are non-empty after removal of missing values"]
 EXHAUSTIVE = {"quick": ["every vector of length 1..4 with entries 0..7 (4680 vectors) x {list, ndarray}"],
               "thorough": ["every vector of length 1..4 with entries 0..9 (11110 vectors) x {list, ndarray}", "every pair of subsets of a 4-element universe for the three set functions"]}
-REQUIRE = {"vectors_checked": 4000, "f2_zero_vectors": 500, "f2_absent_vectors": 8, "var_defined_checked": 2000, "nan_cases_checked": 500,
+REQUIRE = {"tuple_element_cases": 4, "infinite_element_cases": 4, "vectors_checked": 4000, "f2_zero_vectors": 500, "f2_absent_vectors": 8, "var_defined_checked": 2000, "nan_cases_checked": 500,
            "set_cases": 41, "set_input_cases": 10, "series_with_missing_cases": 3, "list_with_missing_cases": 7, "duplicate_cases": 20}
 SHARDS = {"quick": 4, "thorough": 8}
 
